@@ -1,5 +1,5 @@
 """C13 — Range reads return exactly the requested bytes (DESIGN.md §7 C13)."""
-import os, subprocess
+import os, subprocess, hashlib, random
 from vlib import common, coq, gobuild, gw, s3c
 from vlib.common import coq_str, coq_z, coq_bool, coq_list
 
@@ -187,11 +187,17 @@ def run(chk):
         while len(reqs) < n_http:
             k = rnd.choice(keys)
             reqs.append((k, gen_header(rnd, objs[k][0] if not objs[k][1] else 8, http=True)))
+        seq_results = []
         for k, h in reqs:
             stat, isdir, data = objs[k]
             h = bytes(c for c in h.strip(b" \t") if 32 <= c < 127)
             hd = {"Range": h.decode("latin1")} if h != b"" else {}
+            # other request headers that have nothing to do with the range (what SDKs send along) must not change the answer
+            extra = rnd.choice([{}, {}, {"x-amz-checksum-mode": "ENABLED"}, {"x-amz-checksum-mode": "ENABLED"}, {"x-amz-expected-bucket-owner": "root"}, {"Accept-Encoding": "identity"}])
+            hd.update(extra)
             r = cl.req("GET", "/bk1/" + k, headers=hd)
+            seq_results.append((k, dict(hd), (r.status, r.headers.get("content-range", ""), r.headers.get("content-length", ""), hashlib.md5(r.body or b"").hexdigest())))
+            if extra: chk.count("http-extra-header:%s" % sorted(extra)[0])
             if r.status == -1 and not g.alive():
                 chk.fail("c13:gateway-died", "the gateway process died on GET with Range %r on a %d-byte object" % (h, stat),
                          {"key": k, "range": h.decode("latin1"), "log": g.log_tail(1500)})
@@ -216,6 +222,25 @@ def run(chk):
             chk.count("http-status:%d" % r.status)
             chk.case(("h", k, h), h != b"", None)
             chk.traces += 1
+        # the same requests again, many at a time: every response still is the response of its own request (status, Content-Range,
+        # Content-Length and body all of one request)
+        import threading
+        pool = [x for x in seq_results if x[2][0] in (200, 206, 416)][:400]
+        bad_conc = []
+        def hammer(t):
+            r_ = random.Random(1000 + t); c_ = s3c.Client(g.port, "root", "rootsecret")
+            for _ in range(120 if quick else 600):
+                k_, hd_, want = r_.choice(pool)
+                rr = c_.req("GET", "/bk1/" + k_, headers=hd_)
+                got = (rr.status, rr.headers.get("content-range", ""), rr.headers.get("content-length", ""), hashlib.md5(rr.body or b"").hexdigest())
+                if got != want and len(bad_conc) < 5:
+                    bad_conc.append({"key": k_, "headers": hd_, "alone": want, "among_concurrent_requests": got})
+        ths = [threading.Thread(target=hammer, args=(t,)) for t in range(12)]
+        for t in ths: t.start()
+        for t in ths: t.join()
+        chk.case(("h-concurrent", len(pool)), True); chk.traces += 1; chk.count("http-concurrent-requests:%d" % (12 * (120 if quick else 600)))
+        if bad_conc:
+            chk.fail("c13:concurrent-response-differs", "a ranged GET among concurrent ones was answered differently from the same request alone: %r" % (bad_conc[0],), {"differences": bad_conc})
         chk.samples.extend(hmeta[len(corpus()) + 5:len(corpus()) + 9])
         alive = g.alive()
         chk.tie("gateway still running after the range requests", alive, g.log_tail())
